@@ -9,3 +9,5 @@ for P in "$@"; do
   (cd /verif && VERIF_SEED=${VERIF_SEED:-1} ./verif $P $TIER 2>&1 | grep -E "VIOLATION|failure:|no violation|KNOWN|BUILD|CRASH|INCONCLUSIVE" | cut -c1-400)
 done
 git -C /repo checkout -- .
+# NOTE: this rewrites /verif/evidence/<id>.json with the evidence of the run against the seeded tree:
+# re-run the quick checks on the clean tree before committing evidence.
